@@ -10,7 +10,9 @@ Import ListNotations.
 Open Scope N_scope.
 
 Inductive skip_err := SkShort | SkDataLength | SkDepth | SkUnknownType.
-Inductive sres := SOk (n : N) | SErr (e : skip_err) | SFuel.
+(* SPanic: TType is int8, so typeToSize[t] with a type byte >= 0x80 is a negative
+   index and panics inside gopkg *)
+Inductive sres := SOk (n : N) | SErr (e : skip_err) | SPanic | SFuel.
 
 Fixpoint lookupN (k : N) (tab : list (N * N)) : N :=
   match tab with
@@ -19,6 +21,7 @@ Fixpoint lookupN (k : N) (tab : list (N * N)) : N :=
   end.
 
 Definition gk_size (t : N) : N := lookupN t gk_typeToSize_tab.
+Definition neg8 (t : N) : bool := 128 <=? t.
 
 (* skipstr(p, e) on the bytes from p to e *)
 Definition skipstr (bs : list N) : sres :=
@@ -82,6 +85,7 @@ Section SkipLoops.
             else
               let i3 := i + 3 in
               if len bs <=? i3 then SErr SkShort
+              else if neg8 ft then SPanic
               else match skip_one (gk_size ft) ft (drop i3 bs) with
                    | SOk fi => skip_fields fuel' bs (i3 + fi)
                    | e => e
@@ -94,6 +98,7 @@ Fixpoint skip_type (d : nat) (t : N) (bs : list N) : sres :=
   match d with
   | O => SErr SkDepth
   | S d' =>
+      if neg8 t then SPanic else
       let n := gk_size t in
       if 0 <? n then (if len bs <? n then SErr SkShort else SOk n)
       else if t =? gk_STRING then skipstr bs
@@ -104,6 +109,7 @@ Fixpoint skip_type (d : nat) (t : N) (bs : list N) : sres :=
           | kt :: vt :: r =>
               let sz := be_get (firstn 4 r) in
               if neg32 sz then SErr SkDataLength
+              else if neg8 kt || neg8 vt then SPanic
               else
                 let ksz := gk_size kt in
                 let vsz := gk_size vt in
@@ -120,6 +126,7 @@ Fixpoint skip_type (d : nat) (t : N) (bs : list N) : sres :=
           | vt :: r =>
               let sz := be_get (firstn 4 r) in
               if neg32 sz then SErr SkDataLength
+              else if neg8 vt then SPanic
               else
                 let vsz := gk_size vt in
                 if 0 <? vsz then
